@@ -181,7 +181,9 @@ func c14Measure(ctx *Ctx) ([]c14Row, []string, error) {
 						scombos = [][2]int{{0, -1}, {1, -1}, {1, 0}, {2, -1}, {2, 0}, {2, 1}}
 					}
 					for _, sc := range scombos {
-						resp, err := k.p.Call(J{"do": "serve", "req": c14Reqs[op], "opt": J{"mw": n, "stop": stop, "smw": sc[0], "sstop": sc[1], "sel": 0, "status": 200}})
+						// strict servers are built through both constructors in turn (NewStrictHandler / NewStrictHandlerWithOptions)
+						withOptions := k.strict && (op+n+sc[0])%2 == 1
+						resp, err := k.p.Call(J{"do": "serve", "req": c14Reqs[op], "opt": J{"mw": n, "stop": stop, "smw": sc[0], "sstop": sc[1], "sel": 0, "status": 200, "errh": withOptions}})
 						if err != nil {
 							return nil, nil, err
 						}
